@@ -41,6 +41,11 @@ def joinSp : List String → String
 def stepCDisp (st : St) (f : List String) : St × String :=
   match f with
   | ["reset", cap] => (CD.init (cap.toInt?.getD 0), "ok")
+  | ["dsend", id] =>
+    -- the application's disconnected handler (runs after `Pause`) sends a request: two events
+    let (s1, o1) := CD.step st .disconnect
+    let (s2, o2) := CD.step s1 (.send id)
+    (s2, joinSp ((o1 ++ o2).map showObs))
   | _ =>
     match parseEv f with
     | none => (st, "bad-op")
@@ -138,6 +143,15 @@ def stepCMon (st : Option CD.Mon) (f : List String) : Option CD.Mon × String :=
     | none => (none, "skipped")
     | some m =>
       let (ef, of) := splitBar f
+      match ef, parseObsList parseObs of with
+      | ["dsend", id], some obs =>
+        match CD.Mon.event m .disconnect [] with
+        | none => (none, "VIOLATION")
+        | some m1 =>
+          match CD.Mon.event m1 (.send id) obs with
+          | some m' => (some m', "ok")
+          | none => (none, "VIOLATION")
+      | _, _ =>
       match parseEv ef, parseObsList parseObs of with
       | some e, some obs =>
         match CD.Mon.event m e obs with
@@ -182,13 +196,30 @@ def canonDels (l : List Del) : String :=
   let ds := ((l.filter isD).map showDel).mergeSort (fun a b => decide (a ≤ b))
   joinSp (pre.map showDel ++ mid.map showDel ++ ds)
 
-def stepL3S (st : L3.SSt) (f : List String) : L3.SSt × String :=
+/-- driver state of suite `l3s`: the endpoint, whether the application's disconnect handler sends a request to the
+    client that just went away (mode `appsend`), and the number of `disconnect` operations so far (names that request) -/
+structure L3SDrv where
+  st : L3.SSt := {}
+  appsend : Bool := false
+  discOps : Nat := 0
+
+def stepL3S (d : L3SDrv) (f : List String) : L3SDrv × String :=
   match f with
-  | "reset" :: cap :: _ => ({ d := SD.init (cap.toInt?.getD 0) }, "ok")
+  | "reset" :: cap :: rest => ({ st := { d := SD.init (cap.toInt?.getD 0) }, appsend := rest.getD 1 "" == "appsend" }, "ok")
   | _ =>
     match parseSEv f with
-    | none => (st, "bad-op")
-    | some e => let (s, o) := L3.sstep st e; (s, canonDels o)
+    | none => (d, "bad-op")
+    | some e =>
+      let (s, o) := L3.sstep d.st e
+      match e with
+      | .disconnect c =>
+        let n := d.discOps + 1
+        if d.appsend && (SD.get d.st.d c).connected then
+          -- the handler runs after the client was removed: its send is an ordinary send event
+          let (s2, o2) := L3.sstep s (.send c s!"hd{c}x{n}")
+          ({ d with st := s2, discOps := n }, canonDels (o ++ o2))
+        else ({ d with st := s, discOps := n }, canonDels o)
+      | _ => ({ d with st := s }, canonDels o)
 
 def stepL3C (st : L3.CSt) (f : List String) : L3.CSt × String :=
   match f with
